@@ -128,6 +128,13 @@ where
 
     /// Await this task until it is ready and we've received the result.
     pub async fn ready(&self) -> T {
+        // Register for the ready signal _before_ looking at the result: a `mark_as_done` which
+        // happens between our check and the moment we start waiting would otherwise notify
+        // nobody and we would wait forever.
+        let notified = self.ready_signal.notified();
+        tokio::pin!(notified);
+        notified.as_mut().enable();
+
         // Check if an result already exists and return it directly.
         {
             let ready_result = self.ready_result.lock().await;
@@ -142,7 +149,7 @@ where
         crate::verif_c14::yield_point("task_ready_between_check_and_wait").await;
 
         // If not, we wait until we got notified that an result exists.
-        self.ready_signal.notified().await;
+        notified.await;
 
         #[cfg(p2panda_p2panda_verif)]
         crate::verif_c14::yield_point("task_ready_after_wait").await;
